@@ -16,3 +16,5 @@ def run(prog, rep):
     r_pair.run_match_range(prog, rep)
     from ..rules import r_flow
     r_flow.run_forward(prog, rep, which=(), mode='PositionMatch', rid='R-FORWARD-PM', floor=10)
+    from ..rules import r_safe as _rs
+    _rs.run_stale_size(prog, rep)
